@@ -841,7 +841,11 @@ LEVEL_NOTE = ('Trusted: translate/call_bodies.py (fail-closed ast grammar) and t
               'arithmetic with one absorbing NaN (rounding, inf, BLAS regime >= 50000 entries out of scope); flat real '
               'tensor spaces in the model. Theorems assume x, out and operator-owned elements are distinct objects and '
               'pairwise distinct from user-supplied temporaries; the refutations show these side '
-              'conditions are necessary. Axioms: classical reals + funext as printed.')
+              'conditions are necessary. The link between the executed instance (option Q) and the proved one (option R) is '
+              'proved (Transfer.v), and the hand-written protocol functions are proved equal to interpreters of the '
+              'statement lists regenerated from Operator.__call__/__new__/bridges. N-d shapes and memory layout of '
+              'elements exist only in the probes (6 shape configurations, non-C-contiguous out/x). Axioms: classical '
+              'reals + funext as printed.')
 TECHNIQUE = ('Coq: heap semantics over a poisoned carrier, symbolic execution of source-regenerated `_call` bodies, '
              'structural induction over operator trees; in-Coq differential correspondence; introspection-driven probes')
 
@@ -923,6 +927,82 @@ def _poison_allocator(space, times=3):
     del blocks
 
 
+def _layout_variants(space, src, rng, fill=None):
+    """Legal elements of `space` whose memory is NOT C-contiguous, holding the values of `src` (an element) or,
+    if `fill` is given, NaN/sentinel contents: Fortran-ordered, strided view of a bigger array, and -- for real
+    floating spaces -- the .real / .imag view of a complex element.  Returns [(label, element)]; a variant that the
+    space does not accept or that happens to be contiguous is left out."""
+    import odl
+    if isinstance(space, odl.ProductSpace):
+        if len(space) == 0:
+            return []
+        per_part = [_layout_variants(sp_i, (src[i] if src is not None else None), rng, fill)
+                    for i, sp_i in enumerate(space.spaces)]
+        out = []
+        for lab in ('F', 'strided', 'realview', 'imagview'):
+            parts = []
+            for cand in per_part:
+                m = [e for l, e in cand if l == lab]
+                if not m:
+                    parts = None
+                    break
+                parts.append(m[0])
+            if parts is not None:
+                try:
+                    el = space.element(parts)
+                    if el in space:
+                        out.append((lab, el))
+                except Exception:      # noqa
+                    pass
+        return out
+    if not hasattr(space, 'shape') or not hasattr(space, 'dtype') or isinstance(space, odl.set.sets.Field):
+        return []
+    dt = np.dtype(space.dtype)
+    shape = tuple(space.shape)
+    if len(shape) == 0 or int(np.prod(shape)) == 0:
+        return []
+    if src is not None:
+        vals = np.array(np.asarray(src), dtype=dt, copy=True).reshape(shape)
+    else:
+        vals = np.array(np.asarray(_poison(space)), dtype=dt, copy=True).reshape(shape)
+    cands = []
+    if len(shape) >= 2:
+        cands.append(('F', lambda: np.asfortranarray(vals)))
+
+    def strided():
+        big = np.zeros((2 * shape[0],) + shape[1:], dtype=dt)
+        view = big[::2]
+        view[...] = vals
+        return view
+    cands.append(('strided', strided))
+    if np.issubdtype(dt, np.floating):
+        cdt = np.result_type(dt, np.complex64)
+
+        def realview():
+            z = np.empty(shape, dtype=cdt)
+            z.real[...] = vals
+            z.imag[...] = 7.0
+            return z.real
+
+        def imagview():
+            z = np.empty(shape, dtype=cdt)
+            z.imag[...] = vals
+            z.real[...] = 7.0
+            return z.imag
+        cands += [('realview', realview), ('imagview', imagview)]
+    out = []
+    for lab, mk in cands:
+        try:
+            arr = mk()
+            el = space.element(arr)
+            data = el.tensor.data if hasattr(el, 'tensor') else el.data
+            if el in space and not data.flags.c_contiguous and np.shares_memory(data, arr):
+                out.append((lab, el))
+        except Exception:      # noqa
+            pass
+    return out
+
+
 def _close(a, b):
     a, b = np.asarray(a), np.asarray(b)
     if a.shape != b.shape:
@@ -932,24 +1012,34 @@ def _close(a, b):
     return bool(np.allclose(a, b, rtol=1e-9, atol=1e-11, equal_nan=False))
 
 
+# probe configurations: name -> shape of the basic space (1-d below / above THRESHOLD_SMALL entries, 2-d and 3-d
+# with distinct and with coinciding axis lengths)
+CFGS = [('small', (3,)), ('large', (120,)), ('nd2', (2, 3)), ('nd2sq', (3, 3)), ('nd3', (3, 3, 2)), ('nd3d', (2, 3, 4))]
+CFG_SHAPE = dict(CFGS)
+
+
 class _Recipes(object):
     """Constructor recipes: class name -> list of (label, builder, input kind).  `big` selects
     spaces with >= 100 entries (the other lincomb regime)."""
 
-    def __init__(self, rng, big):
+    def __init__(self, rng, cfg):
         import odl
-        self.odl, self.rng, self.big = odl, rng, big
-        n = 120 if big else 3
+        shape = CFG_SHAPE[cfg]
+        big = (cfg == 'large')
+        self.odl, self.rng, self.big, self.cfg, self.shape = odl, rng, big, cfg, shape
+        n = shape[0]
+        nd = len(shape)
         self.n = n
-        self.sp = odl.rn(n)
-        self.spw = odl.rn(n, weighting=2.0)
-        self.sp2 = odl.rn(n + 1)
-        self.csp = odl.cn(n)
-        self.isp = odl.tensor_space(n, dtype=int)
-        self.dsp = odl.uniform_discr(0, 1, n)
-        self.shape2 = (10, 12) if big else (2, 3)
-        self.dsp2 = odl.uniform_discr([0, 0], [1, 1], self.shape2)
-        self.cdsp = odl.uniform_discr(0, 1, n if n % 2 == 0 else n + 1, dtype=complex)
+        self.sp = odl.rn(shape)
+        self.spw = odl.rn(shape, weighting=2.0)
+        self.sp2 = odl.rn((n + 1,) + shape[1:])
+        self.csp = odl.cn(shape)
+        self.isp = odl.tensor_space(shape, dtype=int)
+        self.dsp = odl.uniform_discr([0] * nd, [1] * nd, shape)
+        self.shape2 = shape if nd >= 2 else ((10, 12) if big else (2, 3))
+        self.dsp2 = odl.uniform_discr([0] * len(self.shape2), [1] * len(self.shape2), self.shape2)
+        m = (120 if big else 3)
+        self.cdsp = odl.uniform_discr(0, 1, m if m % 2 == 0 else m + 1, dtype=complex)
         self.ps = odl.ProductSpace(self.sp, 2)
         self.pd = odl.ProductSpace(self.dsp2, 2)
 
@@ -1072,6 +1162,38 @@ class _Recipes(object):
         add('MatrixOperator', 'sparse', lambda: odl.MatrixOperator(__import__('scipy.sparse').sparse.csr_matrix(self.mat(n, n))))
         add('MatrixOperator', 'axis', lambda: odl.MatrixOperator(self.mat(4, self.shape2[1]),
                                                                  domain=odl.rn(self.shape2), axis=1))
+        for k in range(len(self.shape)):
+            for m_ in (self.shape[k], self.shape[k] + 1):
+                add('MatrixOperator', 'nd-axis%d-%dx%d' % (k, m_, self.shape[k]),
+                    (lambda k=k, m_=m_: odl.MatrixOperator(self.mat(m_, self.shape[k]), domain=sp, axis=k)))
+                add('MatrixOperator', 'nd-sparse-axis%d-%dx%d' % (k, m_, self.shape[k]),
+                    (lambda k=k, m_=m_: odl.MatrixOperator(
+                        __import__('scipy.sparse').sparse.csr_matrix(self.mat(m_, self.shape[k])), domain=sp, axis=k)))
+        add('MatrixOperator', 'nd-adjoint', lambda: odl.MatrixOperator(self.mat(self.shape[-1] + 1, self.shape[-1]),
+                                                                         domain=sp, axis=len(self.shape) - 1).adjoint)
+        for pm in ('constant', 'symmetric', 'periodic', 'order0', 'order1'):
+            add('ResizingOperator', 'nd-' + pm, (lambda pm=pm: odl.ResizingOperator(
+                dsp, ran_shp=tuple(t + 2 for t in self.shape), pad_mode=pm)))
+        add('ResizingOperator', 'nd-mixed', lambda: odl.ResizingOperator(
+            dsp, ran_shp=tuple(t + (2 if i % 2 == 0 else -1) for i, t in enumerate(self.shape))))
+        add('ResizingOperatorAdjoint', 'nd', lambda: odl.ResizingOperator(
+            dsp, ran_shp=tuple(t + 2 for t in self.shape), pad_mode='symmetric').adjoint)
+        for ax in range(len(self.shape)):
+            add('PartialDerivative', 'nd-axis%d' % ax, (lambda ax=ax: odl.PartialDerivative(dsp, ax)))
+        add('Gradient', 'nd', lambda: odl.Gradient(dsp))
+        add('Divergence', 'nd', lambda: odl.Divergence(range=dsp))
+        add('Laplacian', 'nd', lambda: odl.Laplacian(dsp))
+        add('LinDeformFixedTempl', 'nd', lambda: odl.deform.LinDeformFixedTempl(v(dsp)), 'unit')
+        add('LinDeformFixedDisp', 'nd', lambda: odl.deform.LinDeformFixedDisp(
+            odl.ProductSpace(dsp, len(self.shape)).element([v(dsp, 'unit') for _ in self.shape])))
+        add('Resampling', 'nd', lambda: odl.Resampling(
+            dsp, odl.uniform_discr([0] * len(self.shape), [1] * len(self.shape), tuple(2 * t for t in self.shape)),
+            interp='nearest'))
+        add('DiscreteFourierTransform', 'nd', lambda: odl.trafos.DiscreteFourierTransform(
+            odl.uniform_discr([0] * len(self.shape), [1] * len(self.shape), self.shape, dtype=complex)))
+        add('DiscreteFourierTransform', 'nd-real-axes', lambda: odl.trafos.DiscreteFourierTransform(dsp, axes=(0,)))
+        add('FourierTransform', 'nd', lambda: odl.trafos.FourierTransform(
+            odl.uniform_discr([0] * len(self.shape), [1] * len(self.shape), self.shape, dtype=complex)))
         add('FlatteningOperator', 'C', lambda: odl.FlatteningOperator(odl.rn(self.shape2)))
         add('FlatteningOperator', 'F', lambda: odl.FlatteningOperator(odl.rn(self.shape2), order='F'))
         add('FlatteningOperatorInverse', 'C', lambda: odl.FlatteningOperator(odl.rn(self.shape2)).inverse)
@@ -1273,11 +1395,11 @@ UFUNC_INPUT = {'arccos': 'unit', 'arcsin': 'unit', 'arctanh': 'unit', 'arccosh':
                'left_shift': 'pos', 'right_shift': 'pos'}
 
 
-def _ufunc_ops(rng, big):
+def _ufunc_ops(rng, cfg):
     """(label, builder, kind) for every name of odl.util.ufuncs.UFUNCS on float and int spaces."""
     import odl
     from odl.util.ufuncs import UFUNCS
-    n = 120 if big else 3
+    n = CFG_SHAPE[cfg]
     out = []
     for entry in UFUNCS:
         name = entry[0]
@@ -1303,8 +1425,9 @@ def probe_operator(op, kind, rng, cls, label, sizeclass, setup):
     tag = '%s[%s]' % (cls, label)
 
     def P(ok, clause, what, detail=None):
-        res.append(C.Probe(bool(ok), '%s:%s:%s' % (cls, clause, sizeclass), '%s %s: %s' % (tag, sizeclass, what),
-                           _snippet(setup, clause), detail))
+        # memory-layout clauses are keyed without the size configuration (the same 1-d recipes recur in every one)
+        key = ('%s:%s' % (cls, clause)) if '-layout-' in clause else '%s:%s:%s' % (cls, clause, sizeclass)
+        res.append(C.Probe(bool(ok), key, '%s %s: %s' % (tag, sizeclass, what), _snippet(setup, clause), detail))
 
     dom, ran = op.domain, op.range
     scalar_dom = isinstance(dom, odl.set.sets.Field)
@@ -1368,6 +1491,29 @@ def probe_operator(op, kind, rng, cls, label, sizeclass, setup):
               'op(x, out=y) holds the values of op(x) (y initially %s)' % ('NaN-filled' if init == 'nan' else 'random'),
               {'oop': v1[:6].tolist(), 'ip': _flat(y)[:6].tolist()})
             P(_flat(x).tobytes() == xb, 'x-changed-ip', 'x bit-for-bit unchanged by op(x, out=y)')
+        # ---- memory layout: legal non-C-contiguous out / x (Fortran order, strided view, .real/.imag of complex)
+        for lab, y in _layout_variants(ran, None, rng, fill=True):
+            try:
+                r2 = op(x, out=y)
+                P(r2 is y and _close(_flat(y), v1), 'ip-layout-%s' % lab,
+                  'op(x, out=y) with y %s (not C-contiguous, NaN-filled) returns y holding the values of op(x)' % lab,
+                  {'oop': v1[:6].tolist(), 'ip': _flat(y)[:6].tolist()})
+            except Exception as e:      # noqa
+                P(False, 'ip-layout-%s' % lab, 'op(x, out=y) with y %s raised %s: %s'
+                  % (lab, type(e).__name__, str(e)[:80]))
+        for lab, xl in _layout_variants(dom, x, rng):
+            try:
+                xlb = _flat(xl).tobytes()
+                r3 = op(xl)
+                ok3 = _close(_flat(r3), v1) and _flat(xl).tobytes() == xlb
+                y = _poison(ran)
+                r4 = op(xl, out=y)
+                ok4 = (r4 is y) and _close(_flat(y), v1) and _flat(xl).tobytes() == xlb
+                P(ok3 and ok4, 'x-layout-%s' % lab,
+                  'op(x) and op(x, out=y) with x %s (not C-contiguous) give the values of op(x), x unchanged' % lab,
+                  {'oop': v1[:6].tolist(), 'oop_layout': _flat(r3)[:6].tolist(), 'ip_layout': _flat(y)[:6].tolist()})
+            except Exception as e:      # noqa
+                P(False, 'x-layout-%s' % lab, 'call with x %s raised %s: %s' % (lab, type(e).__name__, str(e)[:80]))
         # ---- rejections
         try:
             bad_out = odl.rn(int(np.prod(getattr(ran, 'shape', (1,)))) + 5).element()
@@ -1400,16 +1546,16 @@ def probe_operator(op, kind, rng, cls, label, sizeclass, setup):
     return res
 
 
-def _all_recipes(rng, big):
+def _all_recipes(rng, cfg):
     """[(class name, label, builder, kind, setup-key)]"""
-    R = _Recipes(rng, big)
+    R = _Recipes(rng, cfg)
     out = []
     for cls, lst in sorted(R.table().items()):
         for label, build, kind in lst:
             out.append((cls, label, build, kind))
     for label, build, kind in R.derived():
         out.append((None, label, build, kind))
-    for label, build, kind, name in _ufunc_ops(rng, big):
+    for label, build, kind, name in _ufunc_ops(rng, cfg):
         out.append(('ufunc_' + name, label, build, kind))
     return out
 
@@ -1449,13 +1595,13 @@ ABSTRACT_BASES = ('Functional', 'DiscreteFourierTransformBase', 'FourierTransfor
 def replay_probe(setup, clause):
     """Re-run one recipe (identified by (big, index, seed)) and report the named clause."""
     import random
-    big, idx, seed = setup
+    cfg, idx, seed = setup
     rng = random.Random(seed)
-    recs = _all_recipes(rng, big)
+    recs = _all_recipes(rng, cfg)
     cls, label, build, kind = recs[idx]
     op = build()
     name = cls or type(op).__name__
-    ps = probe_operator(op, kind, random.Random(seed + 1), name, label, 'large' if big else 'small', setup)
+    ps = probe_operator(op, kind, random.Random(seed + 1), name, label, cfg, setup)
     bad = [p for p in ps if not p.ok and p.key.split(':')[1] == clause]
     return (not bad), [p.what for p in bad]
 
@@ -1467,8 +1613,8 @@ def probes(rng, tier):
     failed_build = []
     seeds = [rng.randrange(10 ** 6)] if tier == 'quick' else [rng.randrange(10 ** 6) for _ in range(3)]
     for seed in seeds:
-        for big in (False, True):
-            recs = _all_recipes(random.Random(seed), big)
+        for cfg, _shape in CFGS:
+            recs = _all_recipes(random.Random(seed), cfg)
             for idx, (cls, label, build, kind) in enumerate(recs):
                 try:
                     op = build()
@@ -1478,8 +1624,7 @@ def probes(rng, tier):
                 name = cls or type(op).__name__
                 seen_classes.add(type(op).__name__)
                 # classes reached below the top object (operands) count as covered, too
-                out += probe_operator(op, kind, random.Random(seed + 1), name, label,
-                                      'large' if big else 'small', (big, idx, seed))
+                out += probe_operator(op, kind, random.Random(seed + 1), name, label, cfg, (cfg, idx, seed))
     allc = enumerate_classes()
     names = sorted(set(c.__name__ for c in allc))
     COVERAGE['classes_total'] = len(allc)
